@@ -235,7 +235,8 @@ def trueWords : List Str :=
 
 def pow10 (n : Nat) : Int := (10 : Int) ^ n
 
-/-- `ValueError` inside `make_new_node` becomes `TypeMismatchYAMLPathException` in `_apply_change`. -/
+/-- `ValueError` — and, after `fixes/C03-1.patch`, `TypeError` (`int(None)`, `NoneType(None, anchor=…)`) —
+inside `make_new_node` becomes `TypeMismatchYAMLPathException` in `_apply_change`. -/
 def valueError : Err := .ypath .typeMismatch
 
 /-- the scalar written by format BOOLEAN -/
@@ -251,7 +252,7 @@ def fmtBoolean (v : Scalar) : Except Err Scalar :=
 /-- `float(value)` then `make_float_node` -/
 def fmtFloat (v : Scalar) : Except Err Scalar :=
   match v with
-  | .null => .error (.crash .typeError)
+  | .null => .error valueError
   | .bool b => .ok (.float (if b then 1 else 0) 0)
   | .int i => if i.natAbs ≥ 10 ^ 15 then .error .outOfModel else
       let (m, e) := normFloat i 0; .ok (.float m e)
@@ -269,7 +270,7 @@ def fmtFloat (v : Scalar) : Except Err Scalar :=
 /-- `int(value)` -/
 def fmtInt (v : Scalar) : Except Err Scalar :=
   match v with
-  | .null => .error (.crash .typeError)
+  | .null => .error valueError
   | .bool b => .ok (.int (if b then 1 else 0))
   | .int i => .ok (.int i)
   | .float m e => if e ≥ 0 then .ok (.int (m * pow10 e.toNat)) else .ok (.int (Int.tdiv m (pow10 (-e).toNat)))
@@ -285,7 +286,8 @@ def fmtText (v : Scalar) : Except Err Scalar :=
   | none => .error .outOfModel
 
 /-- `Nodes.make_new_node(source, value, format)`: the new scalar, given whether the source node
-carries an anchor (a `None` / plain `str` result cannot take one: `TypeError`). -/
+carries an anchor (a `None` / plain `str` result cannot take one: `TypeError`, reported as a
+YAML Path type mismatch). -/
 def newScalar (anchored : Bool) (v : Scalar) (fmt : Fmt) : Except Err Scalar :=
   match fmt with
   | .bare | .dquote | .squote | .folded | .literal => fmtText v
@@ -294,7 +296,7 @@ def newScalar (anchored : Bool) (v : Scalar) (fmt : Fmt) : Except Err Scalar :=
   | .int => fmtInt v
   | .default =>
     match v with
-    | .null => if anchored then .error (.crash .typeError) else .ok .null
+    | .null => if anchored then .error valueError else .ok .null
     | .bool b => .ok (.bool b)
     | .int i => .ok (.int i)
     | .float m e => .ok (.float m e)
@@ -303,17 +305,17 @@ def newScalar (anchored : Bool) (v : Scalar) (fmt : Fmt) : Except Err Scalar :=
       | .bool _ => fmtBoolean v
       | .int _ => fmtInt v
       | .float _ _ => fmtFloat v
-      | .none => if anchored then .error (.crash .typeError) else .ok (.str s)
+      | .none => if anchored then .error valueError else .ok (.str s)
       | .str => .ok (.str s)
       | .unmodelled => .error .outOfModel
 
-/-- `Nodes.wrap_type(value)` as a scalar (note `ScalarBoolean(bool(value))`: any non-empty text
-typed as a boolean wraps to `True`). -/
+/-- `Nodes.wrap_type(value)` as a scalar (after `fixes/C09-1.patch`; the pinned code wraps
+`ScalarBoolean(bool(value))`, i.e. `True` for the text `false`). -/
 def wrapType (v : Scalar) : Except Err Scalar :=
   match v with
   | .opaque _ => .error .outOfModel
   | .str s => match typedValue s with
-    | .bool _ => .ok (.bool true)
+    | .bool b => .ok (.bool b)
     | .int i => .ok (.int i)
     | .float m e => .ok (.float m e)
     | .none => .ok (.str s)
@@ -419,6 +421,12 @@ def fill : List PSeg → Scalar → Except Err Node
     if i < 0 then .error (.crash .indexError)
     else (fill rest leaf).map (fun c => .seq none (List.replicate i.toNat (buildNext rest leaf) ++ [c]))
 
+/-- The address, inside a freshly created element, of the leaf that `fill` builds. -/
+def fillAddr : List PSeg → Addr
+  | [] => []
+  | .key s :: rest => .key (.str s) :: fillAddr rest
+  | .index i :: rest => .idx i.toNat :: fillAddr rest
+
 /-- How a segment resolves in a node (`_get_nodes_by_key` / `_get_nodes_by_index`, straight-line
 part only). -/
 inductive Look
@@ -489,14 +497,14 @@ def Node.createPath (leaf : Scalar) : Node → List PSeg → Except Err Created
     match lookSeg (.seq a items) seg with
     | .crash e => .error e
     | .missing => (createHere (.seq a items) seg rest leaf).map
-        (fun n' => ⟨n', [.idx (match intOfSeg seg with | some i => i.toNat | none => 0)]⟩)
+        (fun n' => ⟨n', .idx (match intOfSeg seg with | some i => i.toNat | none => 0) :: fillAddr rest⟩)
     | .found (.idx i) => (createList leaf items i rest).map (fun (cs, ad) => ⟨.seq a cs, .idx i :: ad⟩)
     | .found _ => .error .outOfModel
   | .map a es, seg :: rest =>
     match lookSeg (.map a es) seg with
     | .crash e => .error e
     | .missing => (createHere (.map a es) seg rest leaf).map
-        (fun n' => ⟨n', [.key (match seg with | .key s => .str s | .index _ => .int 0)]⟩)
+        (fun n' => ⟨n', .key (match seg with | .key s => .str s | .index _ => .int 0) :: fillAddr rest⟩)
     | .found (.key k) => (createEntries leaf es k rest).map (fun (es', ad) => ⟨.map a es', .key k :: ad⟩)
     | .found _ => .error .outOfModel
   | .set _ _, _ :: _ => .error .outOfModel
